@@ -43,7 +43,7 @@ def build(sel):
     arr.res_name = np.array([["ALA", "GL", "U", "HOH"][(sel["resn"] + k) % 4] for k in range(n)])
     arr.res_id = np.array([IDS[sel["rid"]], IDS[sel["rid"]], 1, 2])      # (second residue: same id, insertion code 'A')
     arr.ins_code = np.array(["", "A", "", ""])
-    arr.hetero = np.array([False, False, True, True])
+    arr.hetero = np.array(HETERO[sel.get("het", 0)])
     coord = np.array([[1.0 + i, 2.0 + i, 3.0 + i] for i in range(n)], dtype=np.float32)
     coord[sel["catom"] % n, sel["caxis"] % 3] = COORDS[sel["coord"]]
     arr.coord = coord
@@ -158,14 +158,16 @@ def check_pdb(sel):
     return None
 
 
-KEYS = dict(name=len(ATOMN), resn=4, rid=len(IDS), coord=len(COORDS), catom=4, caxis=3, opt=16, bfac=len(BFACS), charge=10,
+HETERO = [[False, False, True, True], [True, True, True, True], [False, False, False, False], [True, False, False, True]]
+KEYS = dict(het=len(HETERO), name=len(ATOMN), resn=4, rid=len(IDS), coord=len(COORDS), catom=4, caxis=3, opt=16, bfac=len(BFACS), charge=10,
             aid=len(IDS), bonds=2, box=2, models=2, hybrid=2)
-DEFAULT = dict(name=0, resn=0, rid=0, coord=0, catom=0, caxis=0, opt=0, bfac=0, charge=1, aid=0, bonds=0, box=0, models=1, hybrid=0)
+DEFAULT = dict(het=0, name=0, resn=0, rid=0, coord=0, catom=0, caxis=0, opt=0, bfac=0, charge=1, aid=0, bonds=0, box=0, models=1, hybrid=0)
 
 
 def ob_records(tier):
     groups = [("coord", "catom", "caxis", "models"), ("bfac", "opt", "catom"), ("name", "resn", "charge", "opt"),
-              ("rid", "aid", "hybrid", "opt"), ("bonds", "box", "models", "hybrid", "opt")]
+              ("rid", "aid", "hybrid", "opt"), ("bonds", "box", "models", "hybrid", "opt"),
+              ("het", "models", "bonds", "resn", "box")]
     if tier == "thorough":
         groups += [("coord", "bfac", "opt", "models", "catom"), ("name", "rid", "aid", "hybrid", "opt")]
     cases = []
